@@ -64,7 +64,7 @@ def sign_country_key(country):
 def xml_profile_base():
     return {
         "line_markings": members(LineMarking, xsd_enum("lineMarking")),
-        "stop_markings": members(LineMarking, xsd_enum("lineMarking")),
+        "stop_markings": members(LineMarking, xsd_enum("lineMarking")), "free_stop_refs": True,
         "lanelet_types": members(LaneletType, xsd_enum("laneletType")),
         "road_users": members(RoadUser, xsd_enum("vehicleType")),
         "types_static": members(ObstacleType, xsd_enum("obstacleTypeStatic")),
@@ -72,7 +72,7 @@ def xml_profile_base():
         "types_environment": members(ObstacleType, xsd_enum("obstacleTypeEnvironment")),
         "light_colours": members(TrafficLightState, xsd_enum("trafficLightColor")),
         "light_directions": members(TrafficLightDirection, xsd_inline_enum("direction")),
-        "time_of_day": members(TimeOfDay, xsd_enum("timeOfDay") - {"unknown"}),
+        "time_of_day": members(TimeOfDay, xsd_enum("timeOfDay")),
         "weather": members(Weather, xsd_enum("weather")),
         "underground": members(Underground, xsd_enum("underground")),
         "tags": sorted(m.name for m in Tag if m.value in xsd_tag_names()),
